@@ -280,6 +280,14 @@ func miniTexts() [][]string {
 			}
 		}
 	}
+	// the error branches that need a particular text
+	out = append(out,
+		[]string{"CREATE TABLE t (z text, g text AS (z || 'AS (((') STORED)"},                                             // unexpected empty generation expression
+		[]string{"CREATE TABLE t (z text, g numeric(10,2) AS (z + 1) STORED)"},                                            // generation expression not found
+		[]string{"CREATE TABLE t (id integer PRIMARY KEY, b text CHECK (b <> 'x, y integer PRIMARY KEY AUTOINCREMENT'))"}, // column "y" was not found for AUTOINCREMENT
+		[]string{"CREATE TABLE t (id integer PRIMARY KEY, b integer CHECK (b <> 'PRIMARY KEY AUTOINCREMENT'))"},           // unexpected primary key
+		[]string{"CREATE TABLE t (a int, id integer PRIMARY KEY CHECK (a <> 'AUTOINCREMENT'), b int)"},                    // phantom AUTOINCREMENT
+	)
 	return out
 }
 
